@@ -69,3 +69,65 @@ fn f10_overlay_lists_whiteout_directory() {
     assert!(names.contains(&".whiteout".to_string()), "{:?}", names);
     assert!(ov.join(".whiteout").unwrap().exists().unwrap());
 }
+
+/// C15 (F22): AsyncMemoryFS keeps no timestamps, MemoryFS does.
+#[cfg(feature = "async-vfs")]
+#[test]
+fn f22_async_memory_has_no_timestamps() {
+    use vfs::async_vfs::*;
+    tokio_test::block_on(async {
+        let root = AsyncVfsPath::new(AsyncMemoryFS::new());
+        let f = root.join("a.txt").unwrap();
+        drop(f.create_file().await.unwrap());
+        let m = f.metadata().await.unwrap();
+        assert!(m.created.is_none() && m.modified.is_none(), "async memory reports timestamps");
+        assert!(f.set_modification_time(std::time::SystemTime::now()).await.is_err(), "setter works");
+    });
+    let sroot = VfsPath::new(MemoryFS::new());
+    let sf = sroot.join("a.txt").unwrap();
+    drop(sf.create_file().unwrap());
+    assert!(sf.metadata().unwrap().created.is_some());
+    assert!(sf.set_modification_time(std::time::SystemTime::now()).is_ok());
+}
+
+/// C15 (F23): data flushed through a still-open async handle is not visible until the handle is dropped.
+#[cfg(feature = "async-vfs")]
+#[test]
+fn f23_async_writer_publishes_only_on_drop() {
+    use async_std::io::WriteExt;
+    use vfs::async_vfs::*;
+    tokio_test::block_on(async {
+        let root = AsyncVfsPath::new(AsyncMemoryFS::new());
+        let f = root.join("a.txt").unwrap();
+        let mut h = f.create_file().await.unwrap();
+        h.write_all(b"hello").await.unwrap();
+        h.flush().await.unwrap();
+        assert_eq!(f.metadata().await.unwrap().len, 0, "flushed data visible before drop");
+        drop(h);
+        assert_eq!(f.metadata().await.unwrap().len, 5);
+    });
+    // the sync writer publishes on flush
+    let sroot = VfsPath::new(MemoryFS::new());
+    let sf = sroot.join("a.txt").unwrap();
+    let mut h = sf.create_file().unwrap();
+    h.write_all(b"hello").unwrap();
+    h.flush().unwrap();
+    assert_eq!(sf.metadata().unwrap().len, 5);
+}
+
+/// C15 (F24): AsyncPhysicalFS time setters need a tokio runtime; without one they report NotSupported.
+#[cfg(feature = "async-vfs")]
+#[test]
+fn f24_async_physical_setters_need_tokio() {
+    use vfs::async_vfs::*;
+    let dir = std::env::temp_dir().join(format!("vfs-f24-{}", std::process::id()));
+    std::fs::create_dir_all(&dir).unwrap();
+    std::fs::write(dir.join("a.txt"), b"x").unwrap();
+    let res = async_std::task::block_on(async {
+        let root = AsyncVfsPath::new(AsyncPhysicalFS::new(&dir));
+        root.join("a.txt").unwrap().set_modification_time(std::time::SystemTime::now()).await
+    });
+    let _ = std::fs::remove_dir_all(&dir);
+    let err = res.expect_err("setter worked without a tokio runtime");
+    assert!(matches!(err.kind(), vfs::error::VfsErrorKind::NotSupported), "{:?}", err);
+}
